@@ -3,17 +3,29 @@
 package main
 
 import (
+	"encoding/json"
 	"flag"
 	"fmt"
+	"io"
+	"log"
 	"os"
 	"path/filepath"
 	"strconv"
 	"time"
 
 	"verif/common"
+	"verif/e1"
 )
 
 var registry = map[string]func(*common.Ctx) int{}
+
+// taskHandlers serve the sub-process mode (--task/--result) of the controlled-scheduler engine.
+var taskHandlers = map[string]func(e1.Task) (*e1.Result, map[uint64]struct{}){}
+
+// flags available to sub-commands
+var (
+	flagGomaxprocs int
+)
 
 func main() {
 	if len(os.Args) < 2 {
@@ -25,7 +37,13 @@ func main() {
 	tier := fs.String("tier", "", "quick|thorough")
 	work := fs.String("work", "", "scratch directory")
 	budget := fs.Duration("budget", 0, "soft deadline (exit 0, exhaustive:false when reached)")
+	taskFile := fs.String("task", "", "sub-process mode: task json")
+	resultFile := fs.String("result", "", "sub-process mode: result json")
+	fs.IntVar(&flagGomaxprocs, "gomaxprocs", 0, "race pass: GOMAXPROCS")
 	_ = fs.Parse(os.Args[2:])
+	if *taskFile != "" {
+		os.Exit(subprocess(id, *taskFile, *resultFile))
+	}
 	if *tier == "" {
 		*tier = os.Getenv("VERIF_TIER")
 	}
@@ -76,4 +94,32 @@ func main() {
 		os.RemoveAll(ctx.Work)
 	}
 	os.Exit(code)
+}
+
+func subprocess(id, taskFile, resultFile string) int {
+	if dn, err := os.OpenFile(os.DevNull, os.O_WRONLY, 0); err == nil {
+		os.Stdout = dn
+	}
+	log.SetOutput(io.Discard)
+	h, ok := taskHandlers[id]
+	if !ok {
+		fmt.Fprintf(os.Stderr, "no task handler for %s in this build\n", id)
+		return 2
+	}
+	b, err := os.ReadFile(taskFile)
+	if err != nil {
+		fmt.Fprintln(os.Stderr, err)
+		return 2
+	}
+	var t e1.Task
+	if err := json.Unmarshal(b, &t); err != nil {
+		fmt.Fprintln(os.Stderr, err)
+		return 2
+	}
+	res, states := h(t)
+	if err := e1.WriteResult(resultFile, res, states); err != nil {
+		fmt.Fprintln(os.Stderr, err)
+		return 2
+	}
+	return 0
 }
